@@ -182,6 +182,7 @@ matrix!(m_h_vec, HVec, Vec<u8>, Vec<u8>, |b: &[u8]| b.to_vec(), false, true);
 matrix!(m_h_boxbytes, HBoxBytes, Box<[u8]>, Box<[u8]>, |b: &[u8]| b.to_vec().into_boxed_slice(), false, true);
 
 pub fn run(small: bool, c: &mut Counters) {
+    flip_cases(c);
     let texts: Vec<&'static str> = if small {
         vec!["hé", "\u{10FFFF}b"]
     } else {
@@ -205,5 +206,74 @@ pub fn run(small: bool, c: &mut Counters) {
         m_bytes_a(t, small, "derived byte lexer", c);
         m_h_vec(t, small, "hand-written Logos impl over Vec<u8>", c);
         m_h_boxbytes(t, small, "hand-written Logos impl over Box<[u8]>", c);
+    }
+}
+
+// ---------------------------------------------------------------------------------------------
+// A source whose `Deref` is not pure (safe code need not return the same target on every call): a long string on
+// even calls, a one-byte string on odd calls. Whatever the lexer does with it, safe code must never obtain a slice
+// that lies outside both strings: a panic is fine, an out-of-range `&str` is not. The returned `&str` is judged by
+// address and length only (it is never read), so a violation is reported instead of executed.
+
+pub struct Flip {
+    long: String,
+    short: String,
+    calls: std::cell::Cell<usize>,
+}
+
+impl std::ops::Deref for Flip {
+    type Target = str;
+    fn deref(&self) -> &str {
+        let c = self.calls.get();
+        self.calls.set(c + 1);
+        if c % 2 == 0 { &self.long } else { &self.short }
+    }
+}
+
+#[derive(Debug, Clone, PartialEq)]
+pub struct HFlip;
+impl<'s> Logos<'s> for HFlip {
+    type Extras = ();
+    type Source = Flip;
+    type Error = ();
+    fn lex(_lex: &mut Lexer<'s, Self>) -> Option<Result<Self, ()>> {
+        None
+    }
+}
+
+pub fn flip_cases(c: &mut Counters) {
+    for nlong in [9usize, 64, 4096] {
+        for phase in 0..2usize {
+            for k in [0usize, 1, 2, nlong / 2, nlong - 1, nlong] {
+                for first in 0..3usize {
+                    let src = Flip { long: "x".repeat(nlong), short: "s".into(), calls: std::cell::Cell::new(phase) };
+                    let inside = |p: usize, n: usize| [&src.long, &src.short].iter().any(|b| p >= b.as_ptr() as usize && p + n <= b.as_ptr() as usize + b.len());
+                    let mut lex = HFlip::lexer(&src);
+                    c.cases += 1;
+                    c.wrapper_cases += 1;
+                    if first > 0 {
+                        if catch_unwind(AssertUnwindSafe(|| lex.bump(k))).is_err() {
+                            c.panics += 1;
+                        } else {
+                            c.ok_bumps += 1;
+                        }
+                    }
+                    for what in ["remainder", "slice"] {
+                        if first == 2 && what == "remainder" {
+                            continue;
+                        }
+                        let got = catch_unwind(AssertUnwindSafe(|| {
+                            let s: &str = if what == "remainder" { lex.remainder() } else { lex.slice() };
+                            (s.as_ptr() as usize, s.len())
+                        }));
+                        if let Ok((p, n)) = got {
+                            if !inside(p, n) {
+                                violation("C15", "slice-outside-source", &format!("impure Deref source (strings of {nlong} and 1 bytes, phase {phase}), bump({k}) {}: {what}() returned {n} bytes that lie in neither string", if first > 0 { "called" } else { "not called" }));
+                            }
+                        }
+                    }
+                }
+            }
+        }
     }
 }
